@@ -510,11 +510,29 @@ func costFamilies(rng *rand.Rand, n int) []struct {
 		if room > 65000 {
 			room = 65000
 		}
+		// the same elements in another order (what a list costs must not depend on the order its elements arrive in)
+		reorder := func(b []byte, size int, shuffled bool) []byte {
+			k := len(b) / size
+			idx := make([]int, k)
+			for i := range idx {
+				idx[i] = k - 1 - i
+			}
+			if shuffled {
+				idx = rng.Perm(k)
+			}
+			out := make([]byte, 0, len(b))
+			for _, i := range idx {
+				out = append(out, b[i*size:(i+1)*size]...)
+			}
+			return out
+		}
 		lists := []struct {
 			name string
 			body []byte
 		}{
 			{"oro", tlv6(6, u16s(room))}, {"dns", tlv6(23, ips(room))}, {"userclass", tlv6(15, items(room))},
+			{"oro-descending", tlv6(6, reorder(u16s(room), 2, false))}, {"oro-shuffled", tlv6(6, reorder(u16s(room), 2, true))},
+			{"dns-descending", tlv6(23, reorder(ips(room), 16, false))}, {"userclass-shuffled", tlv6(15, reorder(items(room), 4, true))},
 			{"vendorclass", tlv6(16, append([]byte{0, 0, 0, 9}, items(room-4)...))},
 			{"vendoropts", tlv6(17, append([]byte{0, 0, 0, 9}, subopts(room-4, 1)...))},
 			{"ntp", tlv6(56, func() []byte {
